@@ -5,7 +5,8 @@
     indices, complete or not, any number of tasks, any initial interner): the interning protocol
     (non-atomic check-then-insert) and the assembly of the results.  Not modelled, covered by the
     differential runs of the two harness builds only: rayon's scheduler / work stealing, OS
-    threads, lock poisoning, memory ordering, the non-atomicity of a single file write.
+    threads, lock poisoning, memory ordering.  (A file write is modelled both as one step,
+    [par_save], and as truncate-then-write, [par_save2].)
     "Equal" is equality of everything observable: name CONTENTS (allocation identity, i.e. which
     [Arc] a name shares, is erased: [erase_*]) and Ok-or-Err (which error is reported when several
     glifs are broken is outside the property). *)
@@ -103,6 +104,19 @@ Proof. exact par_save_font_eq_seq. Qed.
 Theorem C19_save_ok_iff_all_ok : forall sched tree ws,
   (exists t, par_save sched tree ws = inr t) <-> forallb stask_ok ws = true.
 Proof. exact par_save_ok_iff. Qed.
+
+(** Saving with NON-atomic file writes (create/truncate, then write the bytes; other threads run
+    in between and can see the truncated file): for every schedule the same files with the same
+    bytes as the sequential build (trees compared through look-ups), and Ok/Err agree. *)
+Theorem C19_par_save_nonatomic_eq_seq : forall sched tree (ws : list stask),
+  NoDup (map fst ws) -> tree_equiv (ok_tree (par_save2 sched tree ws)) (ok_tree (seq_save tree ws)).
+Proof. exact par_save2_equiv. Qed.
+Example C19_nonatomic_truncated_visible :
+  let ws : list stask := [ ([97], inr [1]); ([98], inr [2]) ] in
+  w_tree (wsteps ws [0;1]%nat (mkW [([97],[9])] [WNot; WNot] false)) = [([97],[]); ([98],[])] /\
+  par_save2 [0;1;1;0]%nat [([97],[9])] ws = inr [([97],[1]); ([98],[2])] /\
+  par_save2 [1;0]%nat [] [ ([97], inr [1]); ([98], inl 5) ] = inl 0 /\ NoDup (map fst ws).
+Proof. vm_compute. repeat split; repeat constructor; cbn; intuition discriminate. Qed.
 
 (** * Non-vacuity *)
 Definition nm (c : N) (id : N) : name := ([c], id).
